@@ -574,6 +574,7 @@ class Ctx:
         self.solver_s = 0.0
         self.unknown_branches = 0
         self.fresh_queries = 0
+        self._sqrtc = {}
         self.qtimeout_ms = timeout_ms
         self.max_depth = 4000
         self.model = None
@@ -689,10 +690,13 @@ class Ctx:
         """sqrt(n) for the oracle: exact algebraic number in symbolic mode, math.sqrt otherwise."""
         if self.mode == "conc":
             return math.sqrt(n)
+        if n in self._sqrtc:
+            return self._sqrtc[n]      # one algebraic constant per path, however often the oracle asks for it
         r = self.fresh_real("sqrtc")
         lo = math.sqrt(n)
         self.add_pc(z3.And(r * r == lift(n), r > _rat(lo * 0.999), r < _rat(lo * 1.001)), defining=True)
-        return Sym(r)
+        self._sqrtc[n] = Sym(r)
+        return self._sqrtc[n]
 
     # ---- fresh internals
     def fresh_int(self, tag):
